@@ -7,11 +7,11 @@ Grammar = leftmost-first matches of the regex
 (`\d` is Unicode `Nd`, see `Fv.Log.isNd`; `[^}]` also matches newlines). The padding text is then
 parsed with `str::parse::<i32>()` (ASCII digits only, range checked; failure ⇒ no padding).
 
-`apply_padding` panics in two situations, both modelled as `none`:
-* padding = `i32::MIN`: `padding.abs()` overflows (debug/overflow-checked builds panic there; in a
-  wrapping build the width becomes 2^64-2^31 and the `{:<width$}` below panics instead);
-* the content is shorter (in bytes) than the width and the width exceeds 65 535: `core::fmt`
-  widths are `u16` since Rust 1.87 and `{:>width$}` panics with "Formatting argument out of range".
+`apply_padding` computes `width = min(padding.unsigned_abs(), u16::MAX)` (`unsigned_abs` cannot overflow,
+also not on `i32::MIN`) and, when the content is shorter (in bytes) than `width`, pads with
+`{:>width$}` / `{:<width$}`. `core::fmt` widths are `u16` since Rust 1.87: a runtime width above 65 535 panics
+("Formatting argument out of range"); that precondition of the formatting primitive is kept explicit in
+`fmtPad` (`none` = panic) and shown to be discharged by the clamp (`Fv.Props.C20.pattern_total`).
 -/
 namespace Fv.Log.Pattern
 open Fv.Log
@@ -131,13 +131,20 @@ def specContent (conv : Char) (opts : Option Text) (ev : Event) : Text :=
       else '{' :: (joinFields ev (sortKeys ((ev.fields.map (·.1)).filter (· ≠ kMessage))) ++ ['}'])
   else []
 
+/-- `write!(buf, "{:>width$}", content)` (`right = true`) / `{:<width$}`: pads to `width` *characters*;
+`none` = the panic of `core::fmt` on a width that does not fit `u16` -/
+def fmtPad (content : Text) (width : Nat) (right : Bool) : Option Text :=
+  if 65535 < width then none
+  else if right then some (spaces (width - content.length) ++ content)
+  else some (content ++ spaces (width - content.length))
+
+/-- `(padding.unsigned_abs() as usize).min(u16::MAX as usize)` -/
+def padWidth (p : Int) : Nat := min p.natAbs 65535
+
 /-- `apply_padding`; `none` = panic -/
 def applyPadding (content : Text) (p : Int) : Option Text :=
-  if p = -2147483648 then none
-  else if p.natAbs ≤ utf8Len content then some content
-  else if 65535 < p.natAbs then none
-  else if 0 < p then some (spaces (p.natAbs - content.length) ++ content)
-  else some (content ++ spaces (p.natAbs - content.length))
+  if padWidth p ≤ utf8Len content then some content
+  else fmtPad content (padWidth p) (decide (0 < p))
 
 def renderSeg (ev : Event) : Segment → Option Text
   | .lit s => some s
